@@ -383,6 +383,8 @@ def c16_decode_for(ver, role):
         for t in tokens:
             for p in tmpl[t - 1]:
                 cmds.append({"c": "in", "p": p})
+        if variant == "busy":
+            cmds.append({"c": "pollall"})       # the waiting senders see what the packets did to them
         cmds.append({"c": "drain"})
         return cfg, cmds
     return dec
@@ -500,6 +502,7 @@ def c15_templates(role):
         [cause("alias"), pub(q=0, topic="", alias=2)],
         [{"c": "in", "p": {"t": "disconnect"}}],
         [{"c": "in", "p": {"t": "disconnect", "rc": 4, "sei": 10}}],
+        [{"c": "in", "p": {"t": "disconnect", "sei": 0}}],      # Session Expiry Interval present with value 0
         [{"c": "gate", "what": "pub", "on": 1}, pub(q=1, id=8), cause("recvmax"), pub(q=1, id=9),
          {"c": "gate", "what": "pub", "on": 0}],
     ]
@@ -552,9 +555,9 @@ def c15_configs(tier):
 reg(dict(
     name="disc", judge="ProtoJudge", configs=c15_configs, signature=inb_signature,
     level={}, quota=500, quota_thorough=20000,
-    rule="TLC enumerates every sequence of <= 3 close initiators out of 15 (server) / 10 (client): application close / "
+    rule="TLC enumerates every sequence of <= 3 close initiators out of 16 (server) / 11 (client): application close / "
          "close_with_reason / close_with_no_reason, protocol handler disconnect / disconnect_with, control service "
-         "supplying its own DISCONNECT, handler error, peer DISCONNECT with and without Session Expiry, and the "
+         "supplying its own DISCONNECT, handler error, peer DISCONNECT without, with a non-zero and with a zero Session Expiry Interval, and the "
          "protocol violations with dedicated codes (QoS, retain, subscription identifiers, topic alias, packet too "
          "large, receive maximum); ProtoMon judges count, position and reason code of DISCONNECT on the wire",
     assumptions=[
@@ -572,6 +575,8 @@ def c12_decode_for(kind, maxrecv, size):
             cfg = dict(role="server", ver=3, gate_pub=1, gate_proto=0, max_qos=2, max_receive=maxrecv, max_receive_size=size)
         elif kind == "v5s":
             cfg = dict(role="server", ver=5, gate_pub=1, gate_proto=1, max_qos=2, ack_receive_max=maxrecv, max_receive_size=size)
+        elif kind == "v3c":
+            cfg = dict(role="client", ver=3, gate_pub=1, gate_proto=0, max_qos=2, max_receive=maxrecv, max_receive_size=size)
         else:
             cfg = dict(role="client", ver=5, gate_pub=1, gate_proto=0, max_qos=2, client_receive_max=maxrecv, max_receive_size=size)
         cmds = [handshake(cfg["role"], cfg["ver"])]
@@ -601,6 +606,8 @@ def c12_decode_for(kind, maxrecv, size):
                     cmds.append({"c": "in", "p": {"t": "subscribe", "id": nid}}); nid += 1
                 elif kind == "v3s":
                     cmds.append({"c": "in", "p": {"t": "pingreq"}})
+                elif kind == "v3c":
+                    cmds.append({"c": "in", "p": {"t": "publish", "q": 0, "topic": "u", "plen": 3}})
                 else:
                     cmds.append({"c": "in", "p": {"t": "publish", "q": 2, "id": nid, "topic": "t", "plen": 1}}); nid += 1
             elif t == 7:
@@ -622,7 +629,8 @@ def c12_configs(tier):
     cs = []
     L = 4 if tier == "quick" else 5
     combos = [("v3s", 1, 0), ("v3s", 2, 0), ("v3s", 0, 40), ("v3s", 2, 40), ("v3s", 0, 0),
-              ("v5s", 1, 0), ("v5s", 2, 0), ("v5c", 1, 0), ("v5c", 2, 0), ("v5s", 2, 40)]
+              ("v5s", 1, 0), ("v5s", 2, 0), ("v5c", 1, 0), ("v5c", 2, 0), ("v5s", 2, 40),
+              ("v3c", 0, 0), ("v3c", 2, 0)]
     if tier == "thorough":
         combos += [("v3s", 3, 0), ("v3s", 4, 0), ("v3s", 1, 40), ("v5s", 3, 0), ("v5s", 4, 0)]
     for kind, mr, size in combos:
